@@ -15,12 +15,13 @@ Variable midcheck : bool.
 Variable postcopy : bool.
 Variable recheck : bool.
 Variable freshrule : bool.
+Variable reachrule : bool.
 
 Local Notation state := (state data).
 Local Notation inv := (inv data zero lock).
-Local Notation step := (step data lock midcheck postcopy recheck freshrule).
-Local Notation run := (run data lock midcheck postcopy recheck freshrule).
-Local Notation steps_ok := (steps_ok data lock midcheck postcopy recheck freshrule).
+Local Notation step := (step data lock midcheck postcopy recheck freshrule reachrule).
+Local Notation run := (run data lock midcheck postcopy recheck freshrule reachrule).
+Local Notation steps_ok := (steps_ok data lock midcheck postcopy recheck freshrule reachrule).
 Local Notation restoreL := (restore data zero lock).
 
 (** * G1-G4 (DESIGN.md Appendix A.2), derived from the step rules *)
@@ -120,7 +121,7 @@ Qed.
     sync_incremental_correct needs, for every chunk length. *)
 Theorem verify_sound_pinned s k :
   inv s -> cur data s <> Lost ->
-  match verify data freshrule s with
+  match verify data freshrule reachrule s with
   | VSnap => True
   | VIncrAt => exists c, cur data s = AtLive c /\ idx data (txs data s) (cfo data s) = Some c /\
                          continuity s c k
@@ -128,15 +129,15 @@ Theorem verify_sound_pinned s k :
   end.
 Proof.
   intros H Hnl. pose proof (i_cur _ _ _ _ H) as Hc. unfold cur_inv in Hc.
-  destruct (verify data freshrule s) as [| |cl] eqn:Ev; [exact I| |].
-  - destruct (verify_incrat _ _ _ Ev) as [Hl Hg].
+  destruct (verify data freshrule reachrule s) as [| |cl] eqn:Ev; [exact I| |].
+  - destruct (verify_incrat _ _ _ _ Ev) as [Hl Hg].
     destruct (cur data s) as [c| |] eqn:Ec; [| |contradiction].
     + destruct Hc as [Hle [_ [Hcfo [_ Himg]]]]. exists c. split; [reflexivity|]. split.
       * rewrite Hcfo. apply idx_flen; [|assumption].
         eapply txs_ok_nonempty. apply (i_txs _ _ _ _ H).
       * apply continuity_of_truth; assumption.
     + destruct Hc as [Hlt _]. lia.
-  - destruct (verify_incrhdr _ _ _ _ Ev) as [Hl Hg].
+  - destruct (verify_incrhdr _ _ _ _ _ Ev) as [Hl Hg].
     destruct (cur data s) as [c| |] eqn:Ec; [| |contradiction].
     + exfalso. destruct Hc as [Hle [Hgg [Hcfo _]]]. destruct Hg as [Hg|Hg]; [|contradiction].
       pose proof (flen_firstn_le data (txs data s) c). pose proof (i_phys _ _ _ _ H). lia.
@@ -158,7 +159,7 @@ Qed.
 Definition acks_true (s : state) : Prop :=
   forall n im b, In (n, im, b) (acks data s) -> b = true.
 
-Lemma do_sync_acks s k s' : do_sync data lock freshrule s k = Some s' -> acks data s' = acks data s.
+Lemma do_sync_acks s k s' : do_sync data lock freshrule reachrule s k = Some s' -> acks data s' = acks data s.
 Proof.
   unfold do_sync. destruct (negb (opened data s)); [discriminate|].
   destruct (phys data s); [discriminate|].
@@ -167,7 +168,7 @@ Proof.
     destruct (negb (c + k0 <=? length (txs data s))); [discriminate|].
     destruct (toend data s && negb (c + k0 =? length (txs data s))); [discriminate|].
     destruct (k0 =? 0); intros E; inversion E; subst; [destruct cl|]; reflexivity. }
-  destruct (verify data freshrule s).
+  destruct (verify data freshrule reachrule s).
   - intros E. inversion E; subst. reflexivity.
   - destruct (idx data (txs data s) (cfo data s)); [apply G|discriminate].
   - apply G.
@@ -284,10 +285,10 @@ Hypothesis Hmr : midcheck = true \/ recheck = true.
 Local Notation state := (state data).
 Local Notation inv := (inv data zero lock).
 Local Notation safe := (safe data recheck).
-Local Notation step := (step data lock midcheck true recheck true).
-Local Notation run := (run data lock midcheck true recheck true).
-Local Notation steps_ok := (steps_ok data lock midcheck true recheck true).
-Local Notation steps_window := (steps_window data lock midcheck true recheck true).
+Local Notation step := (step data lock midcheck true recheck true true).
+Local Notation run := (run data lock midcheck true recheck true true).
+Local Notation steps_ok := (steps_ok data lock midcheck true recheck true true).
+Local Notation steps_window := (steps_window data lock midcheck true recheck true true).
 Local Notation restoreL := (restore data zero lock).
 Local Notation acks_true := (acks_true data).
 
@@ -304,14 +305,14 @@ Proof.
     inversion E; subst. apply Same. reflexivity.
   - destruct (pc data s); try discriminate.
     + apply Same. eapply do_sync_acks; eauto.
-    + destruct (do_sync data lock true s k) eqn:Ed; [|discriminate]. inversion E; subst.
+    + destruct (do_sync data lock true true s k) eqn:Ed; [|discriminate]. inversion E; subst.
       apply Same. cbn. eapply do_sync_acks; eauto.
-    + destruct (do_sync data lock true s k) eqn:Ed; [|discriminate]. inversion E; subst.
+    + destruct (do_sync data lock true true s k) eqn:Ed; [|discriminate]. inversion E; subst.
       apply Same. cbn. eapply do_sync_acks; eauto.
     + destruct (needs_post true m rb); [|discriminate].
-      destruct (do_sync data lock true s k) eqn:Ed; [|discriminate]. inversion E; subst.
+      destruct (do_sync data lock true true s k) eqn:Ed; [|discriminate]. inversion E; subst.
       apply Same. cbn. eapply do_sync_acks; eauto.
-    + destruct (do_sync data lock true s k) eqn:Ed; [|discriminate]. inversion E; subst.
+    + destruct (do_sync data lock true true s k) eqn:Ed; [|discriminate]. inversion E; subst.
       apply Same. cbn. eapply do_sync_acks; eauto.
   - destruct (pc data s) eqn:Epc; try discriminate. destruct (l0 data s) eqn:El; [discriminate|].
     destruct ((cgen data s =? gen data s) && (cfo data s =? flen data (txs data s))) eqn:Eg; [|discriminate].
@@ -360,6 +361,8 @@ Proof.
     inversion E; subst. apply Same. reflexivity.
   - destruct (snap data s) as [[[[p we] sc] sg]|]; [|discriminate]. destruct (phys data s); [discriminate|].
     destruct (opened data s); [|discriminate].
+    match type of E with (if ?c then _ else _) = _ => destruct c end.
+    { inversion E; subst. apply Same. reflexivity. }
     destruct (snap_idx data (txs data s) we); [|discriminate].
     inversion E; subst. apply Same. reflexivity.
   - destruct (pc data s); try discriminate. inversion E; subst. apply Same. reflexivity.
@@ -408,183 +411,57 @@ Qed.
 
 End Fixed.
 
-(** * One session (no Close, no kill): with the header re-read after the
-      post-checkpoint copy (commit bb88a29) no side condition is left *)
+(** * /repo HEAD: the only side conditions left are about the death of the process
+      ([kill_ok]) and the error exit [LsBumpFail] *)
 
-Definition session_label (data : Type) (l : label data) : bool :=
-  match l with LsClose _ | LsKill _ | LsBumpFail _ => false | _ => true end.
+Definition nokill_label (data : Type) (l : label data) : bool :=
+  match l with LsKill _ | LsBumpFail _ => false | _ => true end.
 
-Section OneSession.
-Variable data : Type.
-Variable lock : N.
-Variable midcheck : bool.
-
-Local Notation step := (step data lock midcheck true true true).
-
-(** no read mark was ever taken by Open over existing level-0 files *)
-Definition nc (s : state data) : Prop :=
-  openmark data s = false /\ (opened data s = false -> l0 data s = []).
-
-Lemma do_sync_nc s k s' :
-  do_sync data lock true s k = Some s' -> openmark data s' = openmark data s /\ opened data s' = true.
+Lemma steps_window_nokill (data : Type) (lock : N) (midcheck : bool) ls : forall (s : state data),
+  forallb (nokill_label data) ls = true -> steps_window data lock midcheck true true true true s ls.
 Proof.
-  unfold do_sync. destruct (opened data s) eqn:Eo; cbn [negb]; [|discriminate].
-  destruct (phys data s); [discriminate|].
-  assert (G : forall c k cl nc, incr_st data lock s c k cl nc = Some s' ->
-              openmark data s' = openmark data s /\ opened data s' = true).
-  { intros c k0 cl nc0. unfold incr_st.
-    destruct (negb (c + k0 <=? length (txs data s))); [discriminate|].
-    destruct (toend data s && negb (c + k0 =? length (txs data s))); [discriminate|].
-    destruct (k0 =? 0); intros E; inversion E; subst; [destruct cl|]; cbn; auto. }
-  destruct (verify data true s).
-  - intros E. inversion E; subst. cbn. auto.
-  - destruct (idx data (txs data s) (cfo data s)); [apply G|discriminate].
-  - apply G.
-Qed.
-
-Lemma do_commit_nc s t r s' :
-  do_commit data s t r = Some s' ->
-  openmark data s' = openmark data s /\ opened data s' = opened data s /\ l0 data s' = l0 data s.
-Proof.
-  unfold do_commit. destruct (wlock data s); [discriminate|]. destruct r.
-  - destruct (reset_enabled data s && (0 <? length (txs data s))); [|discriminate].
-    intros E. inversion E; subst. cbn. auto.
-  - intros E. inversion E; subst. cbn. auto.
-Qed.
-
-Ltac fin_nc :=
-  unfold openmark in *; cbn in *;
-  repeat match goal with
-         | E : opened _ _ = _ |- _ => progress (rewrite E in * )
-         | E : l0 _ _ = _ :: _ |- _ => progress (rewrite E in * )
-         end;
-  split; auto; intros; try discriminate; try congruence; auto.
-
-Lemma step_nc s l s' : nc s -> session_label data l = true -> step s l = Some s' -> nc s'.
-Proof.
-  intros [Hm Ho] Hl E. unfold nc.
-  assert (Same : openmark data s' = openmark data s -> opened data s' = opened data s ->
-                 l0 data s' = l0 data s -> openmark data s' = false /\ (opened data s' = false -> l0 data s' = [])).
-  { intros A B C. rewrite A, B, C. auto. }
-  destruct l; try discriminate; cbn [Machine.step] in E.
-  - destruct (do_commit_nc _ _ _ _ E) as [A [B C]]. unfold openmark in *; cbn in *; rewrite ?A, ?B, ?C; auto.
-  - destruct (ckpt_allowed data s j); [|discriminate]. inversion E; subst. fin_nc.
-  - destruct (reset_enabled data s); [|discriminate]. inversion E; subst. fin_nc.
-  - destruct (opened data s) eqn:Eo; [discriminate|]. destruct (pc data s); try discriminate.
-    inversion E; subst. cbn. rewrite (Ho eq_refl). split; [reflexivity|discriminate].
-  - assert (G : forall s1 p, do_sync data lock true s k = Some s1 ->
-                openmark data (set_pc data s1 p) = false /\
-                (opened data (set_pc data s1 p) = false -> l0 data (set_pc data s1 p) = [])).
-    { intros s1 p Ed. destruct (do_sync_nc _ _ _ Ed) as [A B]. unfold openmark in *. cbn in *. rewrite A, B. split; [exact Hm|discriminate]. }
-    destruct (pc data s) eqn:Epc; try discriminate.
-    + destruct (do_sync_nc _ _ _ E) as [A B]. rewrite A, B. split; [exact Hm|discriminate].
-    + destruct (do_sync data lock true s k) eqn:Ed; [|discriminate]. inversion E; subst. apply G; reflexivity.
-    + destruct (do_sync data lock true s k) eqn:Ed; [|discriminate]. inversion E; subst. apply G; reflexivity.
-    + destruct (needs_post true m rb); [|discriminate].
-      destruct (do_sync data lock true s k) eqn:Ed; [|discriminate]. inversion E; subst. apply G; reflexivity.
-    + destruct (do_sync data lock true s k) eqn:Ed; [|discriminate]. inversion E; subst. apply G; reflexivity.
-  - destruct (pc data s); try discriminate. destruct (l0 data s) eqn:El; [discriminate|].
-    destruct ((cgen data s =? gen data s) && (cfo data s =? flen data (txs data s))); [|discriminate].
-    inversion E; subst. fin_nc.
-  - destruct (pc data s); try discriminate. destruct (phys data s); [discriminate|].
-    destruct (snap data s); [discriminate|].
-    destruct (opened data s) eqn:Eo; [|discriminate]. inversion E; subst. fin_nc.
-  - destruct (pc data s) as [| |m0 ?| | | | | | | | | | | | ]; try discriminate.
-    + destruct m0; try discriminate. inversion E; subst. fin_nc.
-    + inversion E; subst. fin_nc.
-  - destruct (pc data s) as [| |m0 ?| | | | | | | | | | | | ]; try discriminate.
-    + destruct (mode_eqb m0 Passive); [discriminate|]. inversion E; subst. cbn. auto.
-    + inversion E; subst. cbn. auto.
-  - destruct (pc data s) as [| | | | |m0 ? ?| | | | | | | | | ]; try discriminate.
-    destruct (ls_mark data s); [discriminate|].
-    destruct m0;
-      match type of E with (if ?c then _ else _) = _ => destruct c; [|discriminate] end;
-      inversion E; subst; fin_nc.
-  - destruct (pc data s); try discriminate. destruct (ls_mark data s); [discriminate|].
-    inversion E; subst. cbn. auto.
-  - destruct (pc data s); try discriminate. destruct (ls_mark data s); [|discriminate].
-    inversion E; subst. fin_nc.
-  - destruct (pc data s); try discriminate.
-    + destruct (needs_post true m rb); [discriminate|]. inversion E; subst. fin_nc.
-    + inversion E; subst. fin_nc.
-  - destruct (pc data s); try discriminate.
-    destruct (do_commit data s t restart) eqn:Ed; [|discriminate]. inversion E; subst.
-    destruct (do_commit_nc _ _ _ _ Ed) as [A [B C]]. unfold openmark in *. cbn in *. rewrite A, B, C. auto.
-  - destruct (pc data s) as [| | | | | | | | | |m0 hg0 pre0 wn0 rb0| | | |]; try discriminate.
-    destruct (ck_decide m0 hg0 (gen data s) pre0 wn0 rb0); inversion E; subst; fin_nc.
-  - destruct (pc data s); try discriminate. destruct (phys data s); [discriminate|].
-    destruct (opened data s) eqn:Eo; [|discriminate].
-    inversion E; subst. unfold openmark in *. cbn in *. rewrite Eo. split; [exact Hm|discriminate].
-  - destruct (pc data s); try discriminate. destruct (l0 data s) eqn:El; [discriminate|].
-    destruct (snap data s); [discriminate|]. destruct (opened data s) eqn:Eo; [|discriminate].
-    inversion E; subst. fin_nc.
-  - destruct (snap data s) as [[[[p we] sc] sg]|]; [|discriminate]. destruct (phys data s); [discriminate|].
-    destruct (opened data s) eqn:Eo; [|discriminate].
-    destruct (snap_idx data (txs data s) we); [|discriminate].
-    inversion E; subst. fin_nc.
-Qed.
-
-Lemma window_ok_nc s l : nc s -> session_label data l = true -> window_ok data true true s l = true.
-Proof.
-  intros [Hm _] Hl. unfold window_ok, catching_up. rewrite Hm.
-  destruct l; try reflexivity; try discriminate. destruct restart; reflexivity.
-Qed.
-
-Lemma steps_window_nc ls : forall s,
-  nc s -> forallb (session_label data) ls = true -> steps_window data lock midcheck true true true s ls.
-Proof.
-  induction ls as [|l r IH]; intros s Hn Hl; cbn [Machine.steps_window]; [exact I|].
+  induction ls as [|l r IH]; intros s Hl; cbn [Machine.steps_window]; [exact I|].
   cbn in Hl. apply andb_prop in Hl. destruct Hl as [Hl1 Hl2].
-  split; [apply window_ok_nc; assumption|].
-  destruct (step s l) as [s1|] eqn:Es; [|exact I].
-  apply IH; [|exact Hl2]. eapply step_nc; eauto.
+  split.
+  - destruct l; try reflexivity; try discriminate. destruct restart; reflexivity.
+  - destruct (step data lock midcheck true true true true s l); [apply IH; exact Hl2|exact I].
 Qed.
 
-End OneSession.
-
-Lemma init_nc (data : Type) (zero : data) (lock : N) s : init_ok data zero lock s -> nc data s.
-Proof.
-  intros [_ [_ [_ [_ [_ [_ [_ [_ [H9 [_ [_ [_ [H13 _]]]]]]]]]]]]]. split.
-  - unfold openmark. rewrite H13. reflexivity.
-  - intros _. exact H9.
-Qed.
-
-(** ** C01 for /repo HEAD, any number of sessions: all four checkpoint modes,
-       Close / Open / kill, every interleaving; [steps_window] = no WAL reset
-       while a re-opened session is [catching_up], no kill where [kill_ok] fails *)
+(** ** C01 / C04 for /repo HEAD, any number of sessions: all four checkpoint
+       modes, Close / Open / kill, every interleaving; [steps_window] = no kill
+       where [kill_ok] fails (and no [LsBumpFail]) *)
 Theorem acked_sync_restores_head (data : Type) (zero : data) (lock : N) s0 ls s :
-  init_ok data zero lock s0 -> run data lock true true true true s0 ls = Some s ->
-  steps_ok data lock true true true true s0 ls ->
-  steps_window data lock true true true true s0 ls ->
+  init_ok data zero lock s0 -> run data lock true true true true true s0 ls = Some s ->
+  steps_ok data lock true true true true true s0 ls ->
+  steps_window data lock true true true true true s0 ls ->
   forall n im b, In (n, im, b) (acks data s) ->
   img_eq data (restore data zero lock (firstn n (l0 data s))) im.
 Proof.
   intros Hi E Hok Hw. eapply (acked_sync_restores_lemma data zero lock true true (or_introl eq_refl)); eauto.
 Qed.
 
-(** ** one session: no side condition at all *)
-Theorem acked_sync_restores_one_session (data : Type) (zero : data) (lock : N) s0 ls s :
-  init_ok data zero lock s0 -> run data lock true true true true s0 ls = Some s ->
-  steps_ok data lock true true true true s0 ls ->
-  forallb (session_label data) ls = true ->
+(** ** without kill (and without the error exit): no side condition at all,
+       whatever the number of Close / Open *)
+Theorem acked_sync_restores_nokill (data : Type) (zero : data) (lock : N) s0 ls s :
+  init_ok data zero lock s0 -> run data lock true true true true true s0 ls = Some s ->
+  steps_ok data lock true true true true true s0 ls ->
+  forallb (nokill_label data) ls = true ->
   forall n im b, In (n, im, b) (acks data s) ->
   img_eq data (restore data zero lock (firstn n (l0 data s))) im.
 Proof.
-  intros Hi E Hok Hl. eapply acked_sync_restores_head; eauto.
-  apply steps_window_nc; [eapply init_nc; eauto|exact Hl].
+  intros Hi E Hok Hl. eapply acked_sync_restores_head; eauto. apply steps_window_nokill. exact Hl.
 Qed.
 
-(** with that re-read the first one (commit 80a5b27) is no longer needed for C01:
-    a restart before the PRAGMA is seen by the re-read after the copy *)
+(** with the re-read of bb88a29 the first one (commit 80a5b27) is no longer needed for C01 *)
 Theorem acked_sync_restores_first_read_redundant (data : Type) (zero : data) (lock : N) s0 ls s :
-  init_ok data zero lock s0 -> run data lock false true true true s0 ls = Some s ->
-  steps_ok data lock false true true true s0 ls ->
-  forallb (session_label data) ls = true ->
+  init_ok data zero lock s0 -> run data lock false true true true true s0 ls = Some s ->
+  steps_ok data lock false true true true true s0 ls ->
+  forallb (nokill_label data) ls = true ->
   forall n im b, In (n, im, b) (acks data s) ->
   img_eq data (restore data zero lock (firstn n (l0 data s))) im.
 Proof.
   intros Hi E Hok Hl. eapply (acked_sync_restores_lemma data zero lock false true (or_intror eq_refl)); eauto.
-  apply steps_window_nc; [eapply init_nc; eauto|exact Hl].
+  apply steps_window_nokill. exact Hl.
 Qed.
 
 (** * Non-vacuity: two generations, a PASSIVE checkpoint, an application commit
@@ -593,7 +470,7 @@ Qed.
 Definition ex_base : N -> N := fun pg => if N.eqb pg 1000 then 0%N else (pg * 10)%N.
 
 Definition ex_init : state N :=
-  mkSt N ex_base 2%N 0 [] 0 2%N [] None false false [] 0 0 0%N (mkSess false 0 false None) Idle Lost [] [].
+  mkSt N ex_base 2%N 0 [] 0 2%N [] None false false [] 0 0 0%N (mkSess false 0 false None false) Idle Lost [] [].
 
 Definition F (p c d : N) : frame N := mkF N p c d.
 
@@ -630,14 +507,14 @@ Definition ex_steps : list (label N) :=
 Example ex_init_ok : init_ok N 0%N 1000%N ex_init.
 Proof. unfold init_ok. cbn. repeat split; auto. Qed.
 
-Example ex_steps_ok : steps_ok N 1000%N true true true true ex_init ex_steps.
+Example ex_steps_ok : steps_ok N 1000%N true true true true true ex_init ex_steps.
 Proof.
   cbn [ex_steps Machine.steps_ok].
   repeat (split; [first [exact I | apply tx_okb_sound; vm_compute; reflexivity]|]; vm_compute Machine.step; cbv iota beta).
   exact I.
 Qed.
 
-Example ex_pt : forallb (session_label N) ex_steps = true.
+Example ex_pt : forallb (nokill_label N) ex_steps = true.
 Proof. reflexivity. Qed.
 
 (** the run exists, ends in generation 1 with five level-0 files and two
@@ -648,16 +525,16 @@ Example ex_run :
                         snd (restore N 0%N 1000%N (l0 N s)),
                         map (fst (restore N 0%N 1000%N (l0 N s))) [1; 2; 3; 4]%N,
                         map (fst (committed N s)) [1; 2; 3; 4]%N))
-             (run N 1000%N true true true true ex_init ex_steps)
+             (run N 1000%N true true true true true ex_init ex_steps)
   = Some (5, 1, Idle, AtLive 2, [5; 2], 4%N, [12; 23; 33; 44]%N, [12; 23; 33; 44]%N).
 Proof. vm_compute. reflexivity. Qed.
 
 Example ex_theorem_applies :
-  forall s, run N 1000%N true true true true ex_init ex_steps = Some s ->
+  forall s, run N 1000%N true true true true true ex_init ex_steps = Some s ->
   forall n im b, In (n, im, b) (acks N s) ->
   img_eq N (restore N 0%N 1000%N (firstn n (l0 N s))) im.
 Proof.
-  intros s E. eapply acked_sync_restores_one_session; [exact ex_init_ok|exact E|exact ex_steps_ok|exact ex_pt].
+  intros s E. eapply acked_sync_restores_nokill; [exact ex_init_ok|exact E|exact ex_steps_ok|exact ex_pt].
 Qed.
 
 (** a TRUNCATE checkpoint with application commits on both sides of the release
@@ -683,7 +560,7 @@ Definition ex2_steps : list (label N) :=
     LsBoundarySnap N;
     LsAck N ].
 
-Example ex2_steps_ok : steps_ok N 1000%N true true true true ex_init ex2_steps.
+Example ex2_steps_ok : steps_ok N 1000%N true true true true true ex_init ex2_steps.
 Proof.
   cbn [ex2_steps Machine.steps_ok].
   repeat (split; [first [exact I | apply tx_okb_sound; vm_compute; reflexivity]|]; vm_compute Machine.step; cbv iota beta).
@@ -696,7 +573,7 @@ Example ex2_run :
                         snd (restore N 0%N 1000%N (l0 N s)),
                         map (fst (restore N 0%N 1000%N (l0 N s))) [1; 2; 3]%N,
                         map (fst (committed N s)) [1; 2; 3]%N))
-             (run N 1000%N true true true true ex_init ex2_steps)
+             (run N 1000%N true true true true true ex_init ex2_steps)
   = Some (2, 1, Idle, AtLive 1, [(2, true); (1, true)], 3%N, [13; 24; 31]%N, [13; 24; 31]%N).
 Proof. vm_compute. reflexivity. Qed.
 
@@ -735,14 +612,14 @@ Definition bad_steps : list (label N) :=
 
 Theorem full_checkpoint_window_refuted :
   exists (s0 : state N) ls s n im b,
-    init_ok N 0%N 1000%N s0 /\ run N 1000%N false false false true s0 ls = Some s /\ steps_ok N 1000%N false false false true s0 ls /\
+    init_ok N 0%N 1000%N s0 /\ run N 1000%N false false false true true s0 ls = Some s /\ steps_ok N 1000%N false false false true true s0 ls /\
     In (n, im, b) (acks N s) /\
     ~ img_eq N (restore N 0%N 1000%N (firstn n (l0 N s))) im.
 Proof.
-  destruct (run N 1000%N false false false true ex_init bad_steps) as [s|] eqn:E; [|vm_compute in E; discriminate].
+  destruct (run N 1000%N false false false true true ex_init bad_steps) as [s|] eqn:E; [|vm_compute in E; discriminate].
   exists ex_init, bad_steps, s.
   assert (Hs : option_map (fun s => (map (fun a => fst (fst a)) (acks N s), length (l0 N s)))
-                          (run N 1000%N false false false true ex_init bad_steps) = Some ([2; 1], 2)).
+                          (run N 1000%N false false false true true ex_init bad_steps) = Some ([2; 1], 2)).
   { vm_compute. reflexivity. }
   rewrite E in Hs. cbn in Hs. inversion Hs as [[Ha Hl]]. clear Hs.
   destruct (acks N s) as [|[[n im] b] r] eqn:Ea; [discriminate|].
@@ -759,7 +636,7 @@ Proof.
                                            fst (restore N 0%N 1000%N (firstn n (l0 N s))) 1%N, fst im 1%N)
                                       | [] => (0%N, 0%N, 0%N)
                                       end)
-                            (run N 1000%N false false false true ex_init bad_steps) = Some (2%N, 11%N, 99%N)).
+                            (run N 1000%N false false false true true ex_init bad_steps) = Some (2%N, 11%N, 99%N)).
     { vm_compute. reflexivity. }
     rewrite E in Hv. cbn [option_map] in Hv. rewrite Ea in Hv. inversion Hv as [[H1 H2 H3]].
     specialize (Hp 1%N). rewrite H1, H2, H3 in Hp.
@@ -772,14 +649,14 @@ Qed.
 Definition fixed_steps : list (label N) :=
   firstn 16 bad_steps ++ [LsLockWrite N; LsBoundarySnap N; LsAck N].
 
-Example fixed_steps_ok : steps_ok N 1000%N true true true true ex_init fixed_steps.
+Example fixed_steps_ok : steps_ok N 1000%N true true true true true ex_init fixed_steps.
 Proof.
   cbn [fixed_steps bad_steps firstn app Machine.steps_ok].
   repeat (split; [first [exact I | apply tx_okb_sound; vm_compute; reflexivity]|]; vm_compute Machine.step; cbv iota beta).
   exact I.
 Qed.
 
-Example fixed_steps_window : steps_window N 1000%N true true true true ex_init fixed_steps.
+Example fixed_steps_window : steps_window N 1000%N true true true true true ex_init fixed_steps.
 Proof.
   cbn [fixed_steps bad_steps firstn app Machine.steps_window].
   repeat (split; [reflexivity|]; vm_compute Machine.step; cbv iota beta).
@@ -791,12 +668,12 @@ Example fixed_run :
                         map (fun a => (fst (fst a), snd a)) (acks N s),
                         map (fst (restore N 0%N 1000%N (l0 N s))) [1; 2]%N,
                         map (fst (committed N s)) [1; 2]%N))
-             (run N 1000%N true true true true ex_init fixed_steps)
+             (run N 1000%N true true true true true ex_init fixed_steps)
   = Some (2, 2, Idle, AtLive 1, [(2, true); (1, true)], [99; 22]%N, [99; 22]%N).
 Proof. vm_compute. reflexivity. Qed.
 
 (** and the old re-copy step is no longer enabled there *)
-Example fixed_no_recopy : run N 1000%N true true true true ex_init bad_steps = None.
+Example fixed_no_recopy : run N 1000%N true true true true true ex_init bad_steps = None.
 Proof. vm_compute. reflexivity. Qed.
 
 (** * The window commit 80a5b27 alone leaves open (postcopy = false): FULL/RESTART, between the
@@ -830,14 +707,14 @@ Definition bad2_steps : list (label N) :=
 
 Theorem full_checkpoint_post_pragma_window_refuted :
   exists (s0 : state N) ls s n im b,
-    init_ok N 0%N 1000%N s0 /\ run N 1000%N true false false true s0 ls = Some s /\ steps_ok N 1000%N true false false true s0 ls /\
+    init_ok N 0%N 1000%N s0 /\ run N 1000%N true false false true true s0 ls = Some s /\ steps_ok N 1000%N true false false true true s0 ls /\
     In (n, im, b) (acks N s) /\
     ~ img_eq N (restore N 0%N 1000%N (firstn n (l0 N s))) im.
 Proof.
-  destruct (run N 1000%N true false false true ex_init bad2_steps) as [s|] eqn:E; [|vm_compute in E; discriminate].
+  destruct (run N 1000%N true false false true true ex_init bad2_steps) as [s|] eqn:E; [|vm_compute in E; discriminate].
   exists ex_init, bad2_steps, s.
   assert (Hs : option_map (fun s => (map (fun a => fst (fst a)) (acks N s), length (l0 N s)))
-                          (run N 1000%N true false false true ex_init bad2_steps) = Some ([2; 1], 2)).
+                          (run N 1000%N true false false true true ex_init bad2_steps) = Some ([2; 1], 2)).
   { vm_compute. reflexivity. }
   rewrite E in Hs. cbn in Hs. inversion Hs as [[Ha Hl]]. clear Hs.
   destruct (acks N s) as [|[[n im] b] r] eqn:Ea; [discriminate|].
@@ -854,7 +731,7 @@ Proof.
                                            fst (restore N 0%N 1000%N (firstn n (l0 N s))) 1%N, fst im 1%N)
                                       | [] => (0%N, 0%N, 0%N)
                                       end)
-                            (run N 1000%N true false false true ex_init bad2_steps) = Some (2%N, 11%N, 99%N)).
+                            (run N 1000%N true false false true true ex_init bad2_steps) = Some (2%N, 11%N, 99%N)).
     { vm_compute. reflexivity. }
     rewrite E in Hv. cbn [option_map] in Hv. rewrite Ea in Hv. inversion Hv as [[H1 H2 H3]].
     specialize (Hp 1%N). rewrite H1, H2, H3 in Hp.
@@ -873,14 +750,14 @@ Definition fixed2_steps : list (label N) :=
     LsSync N 1;                    (* evidence (C), now sound: incremental from the new header *)
     LsAck N ].
 
-Example fixed2_steps_ok : steps_ok N 1000%N true true true true ex_init fixed2_steps.
+Example fixed2_steps_ok : steps_ok N 1000%N true true true true true ex_init fixed2_steps.
 Proof.
   cbn [fixed2_steps bad2_steps firstn app Machine.steps_ok].
   repeat (split; [first [exact I | apply tx_okb_sound; vm_compute; reflexivity]|]; vm_compute Machine.step; cbv iota beta).
   exact I.
 Qed.
 
-Example fixed2_steps_window : steps_window N 1000%N true true true true ex_init fixed2_steps.
+Example fixed2_steps_window : steps_window N 1000%N true true true true true ex_init fixed2_steps.
 Proof.
   cbn [fixed2_steps bad2_steps firstn app Machine.steps_window].
   repeat (split; [reflexivity|]; vm_compute Machine.step; cbv iota beta).
@@ -892,7 +769,7 @@ Example fixed2_run :
                         map (fun a => (fst (fst a), snd a)) (acks N s),
                         map (fst (restore N 0%N 1000%N (l0 N s))) [1; 2]%N,
                         map (fst (committed N s)) [1; 2]%N))
-             (run N 1000%N true true true true ex_init fixed2_steps)
+             (run N 1000%N true true true true true ex_init fixed2_steps)
   = Some (3, 1, Idle, AtLive 1, [(3, true); (1, true)], [99; 22]%N, [99; 22]%N).
 Proof. vm_compute. reflexivity. Qed.
 
@@ -917,14 +794,14 @@ Definition bad3_steps : list (label N) :=
 
 Theorem full_checkpoint_post_copy_window_refuted :
   exists (s0 : state N) ls s n im b,
-    init_ok N 0%N 1000%N s0 /\ run N 1000%N true true false true s0 ls = Some s /\ steps_ok N 1000%N true true false true s0 ls /\
+    init_ok N 0%N 1000%N s0 /\ run N 1000%N true true false true true s0 ls = Some s /\ steps_ok N 1000%N true true false true true s0 ls /\
     In (n, im, b) (acks N s) /\
     ~ img_eq N (restore N 0%N 1000%N (firstn n (l0 N s))) im.
 Proof.
-  destruct (run N 1000%N true true false true ex_init bad3_steps) as [s|] eqn:E; [|vm_compute in E; discriminate].
+  destruct (run N 1000%N true true false true true ex_init bad3_steps) as [s|] eqn:E; [|vm_compute in E; discriminate].
   exists ex_init, bad3_steps, s.
   assert (Hs : option_map (fun s => map (fun a => fst (fst a)) (acks N s))
-                          (run N 1000%N true true false true ex_init bad3_steps) = Some [3; 1]).
+                          (run N 1000%N true true false true true ex_init bad3_steps) = Some [3; 1]).
   { vm_compute. reflexivity. }
   rewrite E in Hs. cbn in Hs. inversion Hs as [Ha]. clear Hs.
   destruct (acks N s) as [|[[n im] b] r] eqn:Ea; [discriminate|].
@@ -941,7 +818,7 @@ Proof.
                                            fst (restore N 0%N 1000%N (firstn n (l0 N s))) 1%N, fst im 1%N)
                                       | [] => (0%N, 0%N, 0%N)
                                       end)
-                            (run N 1000%N true true false true ex_init bad3_steps) = Some (2%N, 11%N, 99%N)).
+                            (run N 1000%N true true false true true ex_init bad3_steps) = Some (2%N, 11%N, 99%N)).
     { vm_compute. reflexivity. }
     rewrite E in Hv. cbn [option_map] in Hv. rewrite Ea in Hv. inversion Hv as [[H1 H2 H3]].
     specialize (Hp 1%N). rewrite H1, H2, H3 in Hp.
@@ -962,7 +839,7 @@ Definition fixed3_steps : list (label N) :=
     LsBoundarySnap N;
     LsAck N ].
 
-Example fixed3_steps_ok : steps_ok N 1000%N true true true true ex_init fixed3_steps.
+Example fixed3_steps_ok : steps_ok N 1000%N true true true true true ex_init fixed3_steps.
 Proof.
   cbn [fixed3_steps bad2_steps firstn app Machine.steps_ok].
   repeat (split; [first [exact I | apply tx_okb_sound; vm_compute; reflexivity]|]; vm_compute Machine.step; cbv iota beta).
@@ -974,7 +851,7 @@ Example fixed3_run :
                         map (fun a => snd a) (acks N s),
                         map (fst (restore N 0%N 1000%N (l0 N s))) [1; 2]%N,
                         map (fst (committed N s)) [1; 2]%N))
-             (run N 1000%N true true true true ex_init fixed3_steps)
+             (run N 1000%N true true true true true ex_init fixed3_steps)
   = Some (1, Idle, AtLive 2, [true; true], [99; 22]%N, [99; 22]%N).
 Proof. vm_compute. reflexivity. Qed.
 
@@ -998,14 +875,14 @@ Definition sess_steps : list (label N) :=
     LsSync N 1;
     LsAck N ].
 
-Example sess_steps_ok : steps_ok N 1000%N true true true true ex_init sess_steps.
+Example sess_steps_ok : steps_ok N 1000%N true true true true true ex_init sess_steps.
 Proof.
   cbn [sess_steps Machine.steps_ok].
   repeat (split; [first [exact I | apply tx_okb_sound; vm_compute; reflexivity]|]; vm_compute Machine.step; cbv iota beta).
   exact I.
 Qed.
 
-Example sess_steps_window : steps_window N 1000%N true true true true ex_init sess_steps.
+Example sess_steps_window : steps_window N 1000%N true true true true true ex_init sess_steps.
 Proof.
   cbn [sess_steps Machine.steps_window].
   repeat (split; [reflexivity|]; vm_compute Machine.step; cbv iota beta).
@@ -1017,12 +894,12 @@ Example sess_run :
                         map (fun a => (fst (fst a), snd a)) (acks N s),
                         map (fst (restore N 0%N 1000%N (l0 N s))) [1; 2]%N,
                         map (fst (committed N s)) [1; 2]%N))
-             (run N 1000%N true true true true ex_init sess_steps)
+             (run N 1000%N true true true true true ex_init sess_steps)
   = Some (2, 1, AtLive 1, [(2, true); (1, true)], [99; 55]%N, [99; 55]%N).
 Proof. vm_compute. reflexivity. Qed.
 
 Ltac refute_run E steps :=
-  match type of E with run N 1000%N ?a ?b ?c ?d ex_init steps = Some ?s =>
+  match type of E with run N 1000%N ?a ?b ?c ?d ?e ex_init steps = Some ?s =>
     let Hv := fresh "Hv" in
     assert (Hv : option_map (fun s => match acks N s with
                                       | (n, im, _) :: _ =>
@@ -1030,7 +907,7 @@ Ltac refute_run E steps :=
                                            fst (restore N 0%N 1000%N (firstn n (l0 N s))) 1%N, fst im 1%N)
                                       | [] => (0%N, 0%N, 0%N)
                                       end)
-                            (run N 1000%N a b c d ex_init steps) = Some (2%N, 11%N, 99%N))
+                            (run N 1000%N a b c d e ex_init steps) = Some (2%N, 11%N, 99%N))
       by (vm_compute; reflexivity);
     rewrite E in Hv; cbn [option_map] in Hv
   end.
@@ -1039,12 +916,12 @@ Ltac refute_run E steps :=
     continues incrementally from the new header and frame 3 is never replicated *)
 Theorem reopen_restart_shorter_refuted :
   exists (s0 : state N) ls s n im b,
-    init_ok N 0%N 1000%N s0 /\ run N 1000%N true true true false s0 ls = Some s /\
-    steps_ok N 1000%N true true true false s0 ls /\
+    init_ok N 0%N 1000%N s0 /\ run N 1000%N true true true false true s0 ls = Some s /\
+    steps_ok N 1000%N true true true false true s0 ls /\
     In (n, im, b) (acks N s) /\
     ~ img_eq N (restore N 0%N 1000%N (firstn n (l0 N s))) im.
 Proof.
-  destruct (run N 1000%N true true true false ex_init sess_steps) as [s|] eqn:E; [|vm_compute in E; discriminate].
+  destruct (run N 1000%N true true true false true ex_init sess_steps) as [s|] eqn:E; [|vm_compute in E; discriminate].
   exists ex_init, sess_steps, s.
   refute_run E sess_steps.
   destruct (acks N s) as [|[[n im] b] r] eqn:Ea; [discriminate|].
@@ -1074,12 +951,12 @@ Definition kill_steps : list (label N) :=
 
 Theorem kill_after_lost_post_copy_refuted :
   exists (s0 : state N) ls s n im b,
-    init_ok N 0%N 1000%N s0 /\ run N 1000%N true true true true s0 ls = Some s /\
-    steps_ok N 1000%N true true true true s0 ls /\
+    init_ok N 0%N 1000%N s0 /\ run N 1000%N true true true true true s0 ls = Some s /\
+    steps_ok N 1000%N true true true true true s0 ls /\
     In (n, im, b) (acks N s) /\
     ~ img_eq N (restore N 0%N 1000%N (firstn n (l0 N s))) im.
 Proof.
-  destruct (run N 1000%N true true true true ex_init kill_steps) as [s|] eqn:E; [|vm_compute in E; discriminate].
+  destruct (run N 1000%N true true true true true ex_init kill_steps) as [s|] eqn:E; [|vm_compute in E; discriminate].
   exists ex_init, kill_steps, s.
   refute_run E kill_steps.
   destruct (acks N s) as [|[[n im] b] r] eqn:Ea; [discriminate|].
@@ -1098,7 +975,9 @@ Qed.
     read mark 0, copies the first of them in one budgeted chunk (MaxSyncWALBytes
     > 0), and before the next chunk a commit restarts the WAL (mark 0 does not
     prevent it): the second transaction is gone from the WAL, the fresh-session
-    rule no longer applies, evidence (C) continues from the new header *)
+    rule of 3b58009 (lastSyncedWALOffset = 0, [reachrule = false]) no longer
+    applies, evidence (C) continues from the new header.  F18, repaired by
+    c55c7c6 (reachedWALEnd) *)
 Definition catchup_steps : list (label N) :=
   [ AppCommit N [F 1 2 11] false;
     AppCommit N [F 2 2 21] false;
@@ -1117,12 +996,12 @@ Definition catchup_steps : list (label N) :=
 
 Theorem reopen_catchup_restart_refuted :
   exists (s0 : state N) ls s n im b,
-    init_ok N 0%N 1000%N s0 /\ run N 1000%N true true true true s0 ls = Some s /\
-    steps_ok N 1000%N true true true true s0 ls /\
+    init_ok N 0%N 1000%N s0 /\ run N 1000%N true true true true false s0 ls = Some s /\
+    steps_ok N 1000%N true true true true false s0 ls /\
     In (n, im, b) (acks N s) /\
     ~ img_eq N (restore N 0%N 1000%N (firstn n (l0 N s))) im.
 Proof.
-  destruct (run N 1000%N true true true true ex_init catchup_steps) as [s|] eqn:E; [|vm_compute in E; discriminate].
+  destruct (run N 1000%N true true true true false ex_init catchup_steps) as [s|] eqn:E; [|vm_compute in E; discriminate].
   exists ex_init, catchup_steps, s.
   refute_run E catchup_steps.
   destruct (acks N s) as [|[[n im] b] r] eqn:Ea; [discriminate|].
@@ -1135,3 +1014,21 @@ Proof.
     specialize (Hp 1%N). rewrite H1, H2, H3 in Hp.
     assert (11 = 99)%N by (apply Hp; lia). discriminate.
 Qed.
+
+(** the same history under /repo HEAD: the session has not reached the end of the
+    WAL yet (reachedWALEnd = false), the changed salts mean snapshot *)
+Example catchup_fixed_ok : steps_ok N 1000%N true true true true true ex_init catchup_steps.
+Proof.
+  cbn [catchup_steps Machine.steps_ok].
+  repeat (split; [first [exact I | apply tx_okb_sound; vm_compute; reflexivity]|]; vm_compute Machine.step; cbv iota beta).
+  exact I.
+Qed.
+
+Example catchup_fixed_run :
+  option_map (fun s => (length (l0 N s), cur N s,
+                        map (fun a => (fst (fst a), snd a)) (acks N s),
+                        map (fst (restore N 0%N 1000%N (l0 N s))) [1; 2]%N,
+                        map (fst (committed N s)) [1; 2]%N))
+             (run N 1000%N true true true true true ex_init catchup_steps)
+  = Some (3, AtLive 1, [(3, true); (1, true)], [99; 55]%N, [99; 55]%N).
+Proof. vm_compute. reflexivity. Qed.
